@@ -174,22 +174,19 @@ theorem native_error (n : Nat) (tl : List (Ev κ α)) (x : Err) :
 theorem native_never (n : Nat) (tl : List (Ev κ α)) :
     native n tl .never = (run n tl).map (fun p => Out.item p.1 p.2) := by simp [native, End.toOut]
 
-/-! ### schedules with a tick inside the completion of the source (known finding) -/
+/-! ### schedules with a tick inside the completion of the source -/
 
-/-- outside the listed class (no ticker of an existing group fires inside the completion of the
-    source) the schedule does not matter: completion, error and non-termination are propagated -/
-theorem nativeSched_partial (n : Nat) (tl : List (Ev κ α)) (e : End) (late : List κ)
-    (h : late.any (fun k => hasGroup k tl) = false) : nativeSched n tl e late = native n tl e := by
-  cases e <;> simp [nativeSched, h]
+/-- **the schedule does not matter**: whichever tickers fire while the terminal of the source is
+    being processed, the limiter delivers the passed items and then the source's ending
+    (completion, error, or nothing). Before /repo a396a6b this failed for a late tick of an
+    existing group (the completion was lost). -/
+theorem nativeSched_eq (n : Nat) (tl : List (Ev κ α)) (e : End) (late : List κ) :
+    nativeSched n tl e late = native n tl e := rfl
 
-/-- an error of the source is propagated under every schedule -/
+theorem nativeSched_complete (n : Nat) (tl : List (Ev κ α)) (late : List κ) :
+    nativeSched n tl .complete late = (run n tl).map (fun p => Out.item p.1 p.2) ++ [.complete] := rfl
+
 theorem nativeSched_error (n : Nat) (tl : List (Ev κ α)) (x : Err) (late : List κ) :
     nativeSched n tl (.error x) late = (run n tl).map (fun p => Out.item p.1 p.2) ++ [.error x] := rfl
-
-/-- the deviation: a late tick of an existing group loses the completion (items unaffected) -/
-theorem nativeSched_late (n : Nat) (tl : List (Ev κ α)) (late : List κ)
-    (h : late.any (fun k => hasGroup k tl) = true) :
-    nativeSched n tl .complete late = (run n tl).map (fun p => Out.item p.1 p.2) := by
-  simp [nativeSched, lateTickLosesCompletion, h]
 
 end Ro.RateLimit
